@@ -130,7 +130,7 @@ CHECKS = {
              'processes with every exit status / output shape, both per-recipient modes, Maildrop and Dovecot) is validated by '
              'TLC: delivered => accepted, failure class within the produced failure events, result or relay error only.',
         design='5/C11', technique='TLA+ observer of downstream/relay events, TLC trace validation of enumerated downstream scripts',
-        note='HTTP and MX relays are not driven yet (DESIGN.md section 8). Downstream is an in-memory scripted peer. ' + TB),
+        note='Downstream is an in-memory scripted SMTP/LMTP peer, real child processes for the pipe relays, a loopback HTTP peer for HttpRelay and a stub resolver for MxSmtpRelay; STARTTLS/AUTH stages of the relay client are not scripted. ' + TB),
     'C14': dict(
         level='model_checking',
         text='Server side: sessions stalled or trickled at every stage under virtual time, the deadline computed from the statement '
@@ -139,7 +139,7 @@ CHECKS = {
              'and LMTP, plus a pipe child outliving its timeout; TLC requires the attempt to end by the step timeout with a '
              'transient result.',
         design='5/C14', technique='virtual-time stall enumeration on real server and relay, TLC trace validation against TLA+ observers',
-        note='Every gevent Timeout is virtualised (harness/vt.py). HTTP relay stalls are not driven yet. ' + TB),
+        note='Every gevent Timeout is virtualised (harness/vt.py); the HTTP peer that never answers and the pipe children run in real time. TLS-handshake stalls are not driven. ' + TB),
     'C19': dict(
         level='model_checking',
         text='RelayPool.tla models callers, pool clients (new / idle / busy / ended), the request deque and the link callback '
